@@ -21,7 +21,8 @@ RULE = ("one case = (user-type hierarchy, objects, optional problem = fluents wi
         "initial values, interpreted-function tables, expression). Expressions come from the shared typed grammar (upx.ExprGen: "
         "Boolean connectives with nested same-operator nodes, duplicate and complementary literals, + - * / with constants up to "
         "10**400 and big rationals, comparisons, equalities between related/unrelated/mixed user types, quantifiers over T/S/U "
-        "and the object-less type E incl. the `v == t` shape, interpreted functions) extended here with an S->S fluent, static "
+        "and the object-less type E incl. the `v == t` shape, interpreted functions) extended here with a sibling type R of S "
+        "(equalities that fold to false), an S->S fluent, static "
         "fluents with constant arguments, and planted shapes: exact/inexact integer division above 2**53, `e - (-c)` with a "
         "sum on the left, Exists bodies with v == t where t mentions v / has a strict supertype / has a free variable that an "
         "inner quantifier rebinds / enables a second elimination or a constant fold, quantifiers whose variable vanishes. "
@@ -43,7 +44,7 @@ ASSUMPTIONS = ["quantified variables have user types (the property's quantifier 
 MODELLED = ["modelled by hand (tied by correspondence): Simplifier.walk_* (all operators), ExpressionManager n-ary/Not "
             "normalisations, Substituter on {variable: value}, FreeVarsOracle, Problem.get_static_fluents/initial_value as tables; "
             "Python int/Fraction arithmetic as Int/Rat; OrderedDict as duplicate-free list"]
-BUDGET_S = {"quick": 50, "thorough": 500}
+BUDGET_S = {"quick": 50, "thorough": 420}
 
 # the shared signature plus R, a sibling of S under T (Equals between siblings is well-typed and folds to false)
 TYPES = [list(t) for t in ExprGen.TYPES] + [["R", "T"]]
@@ -563,13 +564,21 @@ def shrink(payload):
 
 
 MANIFEST = {
-    "level_text": ("Lean 4 theorems (Props/C11.lean) about an executable model of Simplifier.walk_* (Core/Walkers/Simplify.lean), "
-                   "stated against the shared reference denotation `den` over unbounded Int/Rat; the model is tied to the real "
-                   "code by a differential check on the produced expression, and the property itself (value under sampled exact "
-                   "interpretations, free variables, idempotence) is evaluated on the real code for every case."),
-    "level_note": ("Trusted: Lean kernel; axioms propext, Classical.choice, Quot.sound; Driver.lean + harness. Modelled not "
-                   "verified: CPython int/Fraction, dict/set, user callables of interpreted functions (tables). Known finding "
-                   "D-C11e: quantifiers over object-less types are dropped; theorems assume non-empty quantified domains."),
+    "level_text": ("Lean 4 theorems (Props/C11.lean) about an executable model of the repaired Simplifier.walk_* "
+                   "(Core/Walkers/Simplify.lean; one function per walk_* method, fuel-indexed because walk_exists re-simplifies), "
+                   "stated against the shared reference denotation `den` over unbounded Int/Rat, for ALL expressions, tables and "
+                   "interpretations: C11_sound_partial (every defined value of a well-formed expression is preserved, for "
+                   "interpretations within the declared types that fix static fluents to their initial values, quantifiers over "
+                   "non-empty domains), C11_sound_full_refuted (kernel-checked witness that the non-empty-domain hypothesis cannot "
+                   "be dropped: known finding D-C11e), C11_no_new_free_vars, C11_idempotent, C11_fuel_independent. The model is tied "
+                   "to the real code by a differential check on the produced expression (binder lists sorted), and the property "
+                   "itself (value under sampled exact interpretations, free variables, idempotence) is evaluated on the real code "
+                   "for every case."),
+    "level_note": ("Trusted: Lean kernel; axioms propext, Classical.choice, Quot.sound; Driver.lean + harness (generator, "
+                   "canonicalisation, pyden). Modelled not verified: CPython int/Fraction, dict/set, user callables of interpreted "
+                   "functions (tables), the type check of rebuilt nodes (C15). The code violates the property on the unchanged tree "
+                   "(D-C11a-d,f,h): repaired by notes/patches/C11-simplifier-soundness.patch, which the model mirrors. Known finding "
+                   "D-C11e: quantifiers over object-less types are dropped; the theorems assume non-empty quantified domains."),
     "technique": "Lean 4 proof over an executable model + model/code correspondence",
     "design_ref": "DESIGN.md §5 C11",
 }
